@@ -185,6 +185,9 @@ func mtqueriesMain(args []string) int {
 				tbl := []string{name + "-t-a", name + "-t2", name + "-t-b"}
 				tree[q.Node-1].M.Extend(det, name+"-t1", ".t1", tbl...)
 				tree[q.Node-1].M.Extend(det, name+"-t2", ".t2", tbl...)
+				if o := mimetype.Lookup(name + "-t1"); o == nil || !o.Is(name+"-t2") {
+					rep.violate(Violation{Property: "C15", Kind: "shared-alias-table", Text: fmt.Sprintf("%s-t1.Is(%q): the name is one of its registered aliases", name, name+"-t2"), Detail: fmt.Sprintf("false after a second Extend was given the same table; the caller's table now reads %q", tbl), Key: "C15|table-own|" + name})
+				}
 				for _, a := range []string{name + "-t-a", name + "-t-b"} {
 					for _, owner := range []string{name + "-t1", name + "-t2"} {
 						if o := mimetype.Lookup(owner); o == nil || !o.Is(a) {
